@@ -4,10 +4,12 @@ import (
 	"encoding/json"
 	"fmt"
 	"io"
+	"os"
 	"reflect"
 	"sort"
 
 	"github.com/wrgl/wrgl/pkg/ref"
+	reffs "github.com/wrgl/wrgl/pkg/ref/fs"
 
 	"verifharness/internal/child"
 )
@@ -68,6 +70,7 @@ type Ret struct {
 type Scenario struct {
 	Path []Op `json:"path"`
 	Ret  Ret  `json:"ret"`
+	Fs   int  `json:"fs"` // applicability to the file store: 2 result+state, 1 state only, 0 not judged
 	Post struct {
 		Refs [][2]interface{} `json:"refs"`
 		Logs [][2]interface{} `json:"logs"`
@@ -320,18 +323,36 @@ func Replay(i int, raw []byte) child.Result {
 	if len(sc.Path) == 0 {
 		return child.Pass("-")
 	}
-	s, db, err := NewMemStore()
-	if err != nil {
-		return child.Inconclusive(err)
+	var s ref.Store
+	tag := "refs/"
+	fsMode := os.Getenv("REFS_STORE") == "fs"
+	if fsMode && sc.Fs == 0 {
+		return child.Pass("-")
 	}
-	defer db.Close()
+	if fsMode {
+		// the file store (pkg/ref/fs), "for the operations it implements": all of the scenario alphabet
+		dir, err := os.MkdirTemp("", "refsfs")
+		if err != nil {
+			return child.Inconclusive(err)
+		}
+		defer os.RemoveAll(dir)
+		s = reffs.NewStore(dir)
+		tag = "refs-fs/"
+	} else {
+		st, db, err := NewMemStore()
+		if err != nil {
+			return child.Inconclusive(err)
+		}
+		defer db.Close()
+		s = st
+	}
 	var got RealRet
 	for _, o := range sc.Path {
 		got = Apply(s, o)
 	}
 	last := sc.Path[len(sc.Path)-1]
-	if k := compareRet(last, sc.Ret, got); k != "" {
-		return child.Fail("refs/"+last.Name+"/ret-"+k, map[string]interface{}{
+	if k := compareRet(last, sc.Ret, got); k != "" && !(fsMode && sc.Fs == 1) {
+		return child.Fail(tag+last.Name+"/ret-"+k, map[string]interface{}{
 			"expected": sc.Ret, "observed": got, "path": sc.Path,
 		})
 	}
@@ -346,11 +367,11 @@ func Replay(i int, raw []byte) child.Result {
 	}
 	obs, err := Observe(s, uni)
 	if err != nil {
-		return child.Fail("refs/"+last.Name+"/observe-error", map[string]interface{}{"error": err.Error(), "path": sc.Path})
+		return child.Fail(tag+last.Name+"/observe-error", map[string]interface{}{"error": err.Error(), "path": sc.Path})
 	}
 	exp, _ := expectedState(&sc)
 	if !stateEqual(exp, obs) {
-		return child.Fail("refs/"+last.Name+"/state", map[string]interface{}{
+		return child.Fail(tag+last.Name+"/state", map[string]interface{}{
 			"expected": exp, "observed": obs, "path": sc.Path,
 		})
 	}
